@@ -4,10 +4,10 @@ package main
 
 import (
 	"fmt"
-	"regexp"
 	"go/scanner"
 	"go/token"
 	"os"
+	"regexp"
 	"strings"
 )
 
@@ -439,25 +439,25 @@ type LoopSpec struct {
 }
 
 type FuncSpec struct {
-	Key       string // pkgpath.Recv.Name or pkgpath.Name
-	Requires  []*SExpr
-	Ensures   []*SExpr
-	Modifies  []*SExpr
-	ModAll    bool // modifies *
-	Decreases *SExpr
-	Loops     map[string]*LoopSpec
-	Trusted   bool // contract assumed, body not verified
-	Inline    bool
-	NoVerify  bool
-	Pure      bool // modifies nothing and result is a function of args+heap (trusted/extern use)
-	MayPanic  bool // explicit panics are part of the contract (not an obligation)
-	KFs       []KFAssume
+	Key           string // pkgpath.Recv.Name or pkgpath.Name
+	Requires      []*SExpr
+	Ensures       []*SExpr
+	Modifies      []*SExpr
+	ModAll        bool // modifies *
+	Decreases     *SExpr
+	Loops         map[string]*LoopSpec
+	Trusted       bool // contract assumed, body not verified
+	Inline        bool
+	NoVerify      bool
+	Pure          bool // modifies nothing and result is a function of args+heap (trusted/extern use)
+	MayPanic      bool // explicit panics are part of the contract (not an obligation)
+	KFs           []KFAssume
 	WorkerEnsures []*SExpr
-	ChanNonNil bool
-	SiteKFs   map[string][]KFAssume
-	Asserts   map[string][]*SExpr // site key -> assertions
-	File      string
-	Line      int
+	ChanNonNil    bool
+	SiteKFs       map[string][]KFAssume
+	Asserts       map[string][]*SExpr // site key -> assertions
+	File          string
+	Line          int
 }
 
 type KFAssume struct {
